@@ -969,3 +969,22 @@ def const_str_slices(run, R="UNIT4"):
                     run.violation(R, "%s|%s" % (R, key), f.loc(t["span"]),
                                   "%s slices a text at the constant byte offset `%s` without the bytes before it being known to be one-byte characters: the slice panics (`byte index is not a char boundary`) when a multi-byte character straddles that offset, e.g. an instruction `ld\u20ac 5`" % (root.rsplit("::", 1)[-1], c))
     run.floor(R, "text slicing sites", n, 9)
+
+
+def unresolved_constant_location(run, R="SPAN"):
+    """a constant whose own definition cannot be evaluated (an undeclared name in it) is the fault; when the strict constants-only
+    evaluator meets such a constant at a use (`#if K == 5`, a `#bankdef` field) its report names the declaration of the constant -
+    the `unresolved symbol` branch of eval_variable_certain reads the span recorded for the symbol it looked up"""
+    from rules_sym import deep
+    fs = [f for f in run.prog.real_fns() if f.kind != "Closure" and f.id.endswith("resolver::eval::eval_variable_certain")]
+    if len(fs) != 1:
+        run.violation(R, R + "|unresolved-constant|anchor", "-", "mechanism not found: eval_variable_certain")
+        return
+    f = fs[0]
+    reads_decl = False
+    for bi, t in f.calls():
+        if re.search(r"Report::(error_span|note_span|push_parent)$", t.get("resolved") or t.get("callee") or ""):
+            if re.search(r"SymbolManager::get\(.*\)\.(span|decl_span)$", deep(f, t["args"][-1], 8)):
+                reads_decl = True
+    run.check(reads_decl, R, R + "|unresolved-constant|at-declaration", f.loc(), "an unresolved constant met by the strict evaluator is reported with the location of its declaration",
+              "eval_variable_certain reports `unresolved symbol` at the place of use only: for `K1 = undefined_sym` (line 4) and `#if K1 == 5` (line 7) no message at all is located on line 4, the faulty line")
